@@ -212,7 +212,14 @@ def judge(sh: Shard, mw, label, suspend, regime, exited):
     if suspend == "none":
         timeline = sorted([(e["seq"], "ev", e) for e in ev] + [(r["seq1"], "reset", r) for r in api if r["api"] == "async_reset" and r["t1"] is not None and r["exc"] is None], key=lambda x: x[0])
         before = "IDLE"
-        for _, kind, x in timeline:
+        # (the table is the harness's reading of the documented flow with spa details present: once
+        # they were cleared, announcements that need them can fail before delivery - a transition is
+        # then made without its event - so the table is judged up to that call only)
+        cleared_at = min([r_["seq0"] for r_ in api if r_["api"] == "async_set_spa_info" and r_["args"][:2] == [None, None]], default=1 << 60)
+        for seq_, kind, x in timeline:
+            if seq_ > cleared_at:
+                sh.count("table_runs_cut_where_the_details_were_cleared")
+                break
             if kind == "reset":
                 sh.see("state_event_pairs", f"{x['before']['state']}+reset-by:{'ping-received' if x['task'] == 'SPA:Ping loop' else 'user'}")
                 before = x["after"]["state"]
